@@ -76,11 +76,22 @@ pub trait Entry: Sized + 'static {
     fn idx_same(a: &Idx<Self>, b: &Idx<Self>) -> bool;
     fn idx_render(a: &Idx<Self>) -> String;
 
-    fn reserve_items(_r: &mut Self::R, _vs: &[Self::V]) -> bool {
+    /// `reserve_items` through the `which`-th reservation form (0 = canonical); false if the
+    /// entry has no `ReserveItems` impl (or `which` is out of range).
+    fn reserve_items_form(_r: &mut Self::R, _vs: &[Self::V], _which: usize) -> bool {
         false
     }
-    fn fs_reserve_items<S: IdxC<Idx<Self>>>(_fs: &mut Stack<Self, S>, _vs: &[Self::V]) -> bool {
+    fn fs_reserve_items_form<S: IdxC<Idx<Self>>>(_fs: &mut Stack<Self, S>, _vs: &[Self::V], _which: usize) -> bool {
         false
+    }
+    fn reserve_form_count() -> usize {
+        0
+    }
+    fn reserve_items(r: &mut Self::R, vs: &[Self::V]) -> bool {
+        Self::reserve_items_form(r, vs, 0)
+    }
+    fn fs_reserve_items<S: IdxC<Idx<Self>>>(fs: &mut Stack<Self, S>, vs: &[Self::V]) -> bool {
+        Self::fs_reserve_items_form(fs, vs, 0)
     }
     fn clone_r(_r: &Self::R) -> Option<Self::R> {
         None
@@ -278,15 +289,39 @@ macro_rules! entry {
 
     (@reserve none) => {};
     (@reserve (|$v:ident| $e:expr)) => {
-        fn reserve_items(r: &mut Self::R, vs: &[Self::V]) -> bool {
-            flatcontainer::ReserveItems::reserve_items(r, vs.iter().map(|$v| $e));
-            true
+        $crate::entry!(@reserve [ (|$v| $e) ]);
+    };
+    (@reserve [ $( (|$v:ident| $e:expr) ),+ $(,)? ]) => {
+        fn reserve_items_form(r: &mut Self::R, vs: &[Self::V], which: usize) -> bool {
+            use flatcontainer::{IntoOwned, PushIter, Region};
+            let mut i = 0usize;
+            $(
+                if which == i {
+                    flatcontainer::ReserveItems::reserve_items(r, vs.iter().map(|$v| $e));
+                    return true;
+                }
+                i += 1;
+            )+
+            false
         }
-        fn fs_reserve_items<S: $crate::entry::IdxC<$crate::entry::Idx<Self>>>(
-            fs: &mut $crate::entry::Stack<Self, S>, vs: &[Self::V],
+        fn fs_reserve_items_form<S: $crate::entry::IdxC<$crate::entry::Idx<Self>>>(
+            fs: &mut $crate::entry::Stack<Self, S>, vs: &[Self::V], which: usize,
         ) -> bool {
-            fs.reserve_items(vs.iter().map(|$v| $e));
-            true
+            use flatcontainer::{IntoOwned, PushIter, Region};
+            let mut i = 0usize;
+            $(
+                if which == i {
+                    fs.reserve_items(vs.iter().map(|$v| $e));
+                    return true;
+                }
+                i += 1;
+            )+
+            false
+        }
+        fn reserve_form_count() -> usize {
+            let mut n = 0usize;
+            $( let _ = stringify!($v); n += 1; )+
+            n
         }
         fn can_reserve_items() -> bool { true }
     };
